@@ -35,6 +35,10 @@ CHECKS = {
                 tech="TLC trace validation of data directives against Assembler!DataFrom on exact (limb) integers",
                 text="Element lists of length 0..5 over the boundary values of each width (both ends, signed/unsigned), symbols, labels and ten strings (empty, non-ASCII, containing ; , //) for .db/.dw/.dd/.dq in code, EEPROM and data segments followed by a second item, and .byte in each segment; TLC recomputes bytes, padding and errors.",
                 note=TB + "; I64.tla limb arithmetic (its identities are checked by TLC in setup)"),
+    "C07": dict(level="model_checking", ref="3 C07",
+                tech="TLC replay of the records of written HEX files through the reader state machine of IHex.tla; MC_IHex round-trip and defect-rejection theorems",
+                text="Every image length 0..600 and every length within 17 bytes of the 64 KiB boundaries (quick: 64/128 KiB, thorough: up to 512 KiB and 1 MiB) with specification-defined contents, for both writers: the file is lexed to records and TLC's reader accepts only well-formed records with valid checksums, one end-of-file record at the end, and every image byte exactly once at its address. MC_IHex checks the reference writer against the reader for all lengths 0..70 at toy record/block sizes and that six typical writer defects are rejected.",
+                note=TB + "; blank lines in the file are ignored"),
     "C08": dict(level="model_checking", ref="3 C08",
                 tech="TLC trace validation of all well-formed conditional structures against the conditional stack of Assembler.tla",
                 text="Every well-formed nesting structure (if / elif* / else? / endif, nesting <= 3) up to 7 lines (thorough 9), instantiated with all-true, all-false and seeded truth assignments over literal, .equ and .define conditions, with marker instructions, messages, garbage text, .define and label definitions in the branches; TLC's reference (stack with taken flag) must give the same image, messages and error status.",
@@ -47,10 +51,18 @@ CHECKS = {
                 tech="TLC trace validation of symbol programs and their single-line deletion/duplication mutants against Assembler.tla",
                 text="Seeded random programs over labels, .equ, .set, .def/.undef and uses in instructions and data, each line spelled in lower/upper/mixed case, plus every single-line deletion and every duplication with a specified outcome, plus hand-shaped corners; TLC's binding rules (global labels/.equ, sequential .set/.def) decide image or error.",
                 note=TB + "; cross-kind clashes, .equ redefinition, .def of a bound alias not generated"),
+    "C11": dict(level="model_checking", ref="3 C11",
+                tech="TLC trace validation of file trees (build_file) and their flattening (build_str) against Files.tla; paste theorem checked on every recorded tree",
+                text="Four base programs (symbols, a macro, device selection, conditionals, data, aliases) are cut at seeded safe positions into trees of up to 5 files / depth 3 and every file is placed in one of seven places (same directory, sub-directory in the path, caller-supplied directory, .includepath of the main file relative/absolute, .includepath declared in a nested file, path relative to the process directory), with optional .exit followed by garbage, plus missing-file variants; TLC requires build_file(tree) and build_str(flat) to equal the specification's results, the error of a missing file to name it, and RunTree(tree) = Run(flat).",
+                note=TB + "; a name never exists in more than one searched directory; conditionals/macros not split across files"),
     "C12": dict(level="model_checking", ref="3 C12",
                 tech="TLC trace validation of capacity boundary programs for every device row against Devices!Fits; part-definition files compared with the table by TLC",
                 text="Every device of the public table (and none) x flash/EEPROM/RAM x capacity-1/capacity/capacity+1 reached by instructions, data, reservations and .org, unknown and second device, reported sizes; TLC applies Fits to the exported rows. The figures of every shipped part-definition file are extracted by an independent scanner and TLC requires row = file.",
                 note=TB + "; the independent part-file scanner (regular expression over .equ NAME = value)"),
+    "C14": dict(level="model_checking", ref="3 C14",
+                tech="TLC trace validation of respelled programs: every variant must give the specification's result for the abstract program",
+                text="The full factorial of 1440 spelling descriptors (letter case x whitespace pattern x comment style x line end x radix x blank/comment-only lines) on 35 minimal-context programs, one per line kind, plus multi-line programs from the layout, symbol and conditional generators with an independent seeded descriptor per line; each distinct (program, result) pair is judged by TLC against Assembler!Run, so all variants of a program must agree with the specification and hence with each other.",
+                note=TB + "; rewrites the statement does not list are not varied"),
     "C15": dict(level="model_checking", ref="3 C15",
                 tech="TLC trace validation of single-fault programs (error line must be the spec's fault line, also after shifting by 7 lines) and message placements",
                 text="5 base programs x every insertion position x 16 single-line faults, each built as is and shifted by 7 lines: TLC requires an error whose text contains the specification's fault line as an integer token both times; 768 placements of .message/.warning/.error in and around taken/untaken branches: order, text, own line numbers, unchanged images.",
